@@ -4,12 +4,16 @@
 EXTENDS MC_Lsr, Json, IOUtils, SequencesExt
 ASSUME FloatMeansEnergy
 ASSUME ExtOfOneIsLsr(LsrObjs)
-ASSUME ExtIsSumOfLsr(ExtObjs)
+\* the ExtendedLSR objects of the case set: every one-term object, and the two-term objects with the first
+\* slope and the intercept fixed (a quarter of them; the design models explore all)
+CaseExt == ExtObjsN(1) \cup {o \in ExtObjsN(2) : o.b = <<5, 1>> /\ o.as[1] = <<1, 2>>}
+CaseObjs == LsrObjs \cup CaseExt
+ASSUME ExtIsSumOfLsr(CaseExt)
 ASSUME ExtAdditive(ExtObjsN(1))
 \* the implementation-shaped evaluation agrees with the relation on every case (all temperatures)
-ASSUME \A o \in Objs, t \in Temps : Evaluate(o, t).U = Required(o)
+ASSUME \A o \in CaseObjs, t \in Temps : Evaluate(o, t).U = Required(o)
 Case(o, t) == [obj |-> o, T |-> t, U |-> Required(o)]
-Cases == {Case(o, t) : o \in Objs, t \in Temps}
+Cases == {Case(o, t) : o \in CaseObjs, t \in Temps}
 EmitCases == IF "OUT_FILE" \in DOMAIN IOEnv THEN JsonSerialize(IOEnv.OUT_FILE, SetToSeq(Cases)) ELSE TRUE
 ASSUME EmitCases
 \* nothing to explore in this run
